@@ -21,7 +21,7 @@ ID = "C12"
 LEVEL = "model_checking"
 RULE = (
     "configurations: target-host lists {[local], [local, r1], [r1, r2], [r1:9200, r1:9201], [local:9200, local:9201], [local, r1:9200, "
-    "r1:9201], [local, r1, local], [r1, r2, r1]} x {no fault, launcher fails on each host, provisioning fails for the last node of a multi-node host, a member daemon is shut down during start-up (any time before its nodes "
+    "r1:9201], [local, r1, local], [r1, r2, r1]} x {no fault, launcher fails on each host, provisioning fails for the last node of a multi-node host, stopping fails on a host, a member daemon is shut down during start-up (any time before its nodes "
     "have started: listeners get the convention update, its actors die, their parents get ChildActorExited, later creations abort)} x {a non-target daemon / a daemon without "
     "ip capability also joins} x preserve-install {off, on} plus externally provisioned clusters; per configuration ALL reachable "
     "states: transitions = deliver the head of any sender/receiver channel | fire any pending timer | a remote daemon joins | the departure. "
@@ -69,6 +69,9 @@ class StubLauncher:
         return [type("Node", (), {"node_name": f"n-{self.group[0]}-{self.group[1]}-{i}"})() for i in range(len(node_configs))]
 
     def stop(self, nodes, metrics_store):
+        if self.group in _S.get("fail_stop", ()):
+            self.calls.log.append(("stop-failed", self.group))
+            raise RuntimeError(f"injected failure while stopping the nodes on {self.group}")
         self.calls.log.append(("stop", self.group, len(nodes)))
 
 
@@ -194,6 +197,7 @@ def run_config(cfgspec, ch, res):
     groups = groups_of(hosts)
     _S["calls"] = Calls()
     _S["fail_groups"] = {fault[1]} if fault and fault[0] == "launch-fails" else set()
+    _S["fail_stop"] = {fault[1]} if fault and fault[0] == "stop-fails" else set()
     # provisioning fails for the LAST node of a host that runs several nodes (the earlier ones are installed already)
     _S["fail_prepare"] = {(fault[1], groups_of(HOST_LISTS[hname])[fault[1]][-1])} if fault and fault[0] == "prepare-fails" else set()
     cfg = make_cfg(hosts, preserve)
@@ -294,7 +298,7 @@ def run_config(cfgspec, ch, res):
     calls = _S["calls"].log
     rc = env["rc"]
     # a departure only counts as a start-up fault if the Dispatcher was still waiting for daemons when it learnt about it
-    faulty = bool(fault) and (fault[0] in ("launch-fails", "prepare-fails") or env["departed"])
+    faulty = bool(fault) and (fault[0] in ("launch-fails", "prepare-fails", "stop-fails") or env["departed"])
     gone_ip = fault[1] if fault and fault[0] == "daemon-departs" and env["departed"] else None
     late_departure = False
     if v is None and status == "step-limit":
@@ -322,7 +326,7 @@ def run_config(cfgspec, ch, res):
             # every started node group: stop -> final flush -> store close -> cleanup (with the preserve flag), exactly once
             for g, ids in groups.items():
                 started = [c for c in calls if c[0] == "start" and c[1] == g]
-                if not started or g[0] == gone_ip:
+                if not started or g[0] == gone_ip or (fault and fault[0] == "stop-fails" and g == fault[1]):
                     continue
                 seq = [c[0] for c in calls if len(c) > 1 and c[1] == g and c[0] in ("stop", "flush-final", "store-close")]
                 if seq != ["stop", "flush-final", "store-close"]:
@@ -366,6 +370,8 @@ def configs(tier):
         remotes = sorted({ip for ip, _ in hosts if ip != LOCAL})
         faults = [None] + [("launch-fails", g) for g in groups] + [("daemon-departs", r) for r in remotes[:1]]
         faults += [("prepare-fails", g) for g in groups if len(groups_of(hosts)[g]) > 1]
+        # stopping fails on one host: the stop must not be acknowledged to race control as if every node had been stopped
+        faults += [("stop-fails", g) for g in groups[:2]]
         for fault in faults:
             for extra in ([None, "other", "noip"] if remotes else [None]):
                 if extra and fault and fault[0] == "launch-fails" and tier == "quick":
